@@ -90,7 +90,8 @@ fn is_word_char(c: char) -> bool {
     c.is_ascii_alphanumeric() || c == '_'
 }
 
-/// join tokens; style 0 = one space between all tokens, style 1 = no space next to ( ) , ; [ ]
+/// join tokens; style 0 = one space between all tokens, style 1 = no space next to ( ) , ; [ ], style 2 = a block
+/// comment between all tokens
 fn join_tokens(ts: &[String], style: u8, out: &mut String) {
     let mut prev: Option<&str> = None;
     for t in ts {
@@ -101,6 +102,13 @@ fn join_tokens(ts: &[String], style: u8, out: &mut String) {
         }
         if let Some(p) = prev {
             let tight = |x: &str| matches!(x, "(" | ")" | "," | ";" | "[" | "]");
+            if style == 2 {
+                // a comment is white space: between every two tokens
+                out.push_str("/*c*/");
+                out.push_str(t);
+                prev = Some(t);
+                continue;
+            }
             let need = if style == 0 {
                 true
             } else if tight(p) || tight(t) {
@@ -576,8 +584,42 @@ fn kind_string(t: &Token) -> String {
 pub fn run_preprocess(job: &PJob) -> Outcome {
     let r = guard(|| {
         let mut sm = SourceManager::new();
-        let mut inc = MapIncludes(job.files);
-        match rssl::preprocess::preprocess(job.entry, &mut sm, &mut inc, job.defines) {
+        // rssl's own include handler for file tables (`[(&str, &str); N]`, the one its users and tests pass) serves the
+        // files when the table is small; the harness' map handler otherwise
+        let f = job.files;
+        let mut a1;
+        let mut a2;
+        let mut a3;
+        let mut a4;
+        let mut a5;
+        let mut map;
+        let inc: &mut dyn rssl::text::IncludeHandler = match f.len() {
+            1 => {
+                a1 = [f[0]];
+                &mut a1
+            }
+            2 => {
+                a2 = [f[0], f[1]];
+                &mut a2
+            }
+            3 => {
+                a3 = [f[0], f[1], f[2]];
+                &mut a3
+            }
+            4 => {
+                a4 = [f[0], f[1], f[2], f[3]];
+                &mut a4
+            }
+            5 => {
+                a5 = [f[0], f[1], f[2], f[3], f[4]];
+                &mut a5
+            }
+            _ => {
+                map = MapIncludes(job.files);
+                &mut map
+            }
+        };
+        match rssl::preprocess::preprocess(job.entry, &mut sm, inc, job.defines) {
             Ok(toks) => {
                 // prepare_tokens is what the parser sees: whitespace removed, Eof appended
                 let prepared = rssl::preprocess::prepare_tokens(&toks);
@@ -1661,7 +1703,8 @@ fn check_compile_placement_list(defs: &[(&str, &str)], prog: &str, cfg: Cfg, rep
 // ---------------------------------------------------------------------------------------------
 // G-INC: include graphs
 
-const FILE_NAMES: [&str; 4] = ["main.rssl", "f1.rssl", "f2.rssl", "f3.rssl"];
+// names that are suffixes / prefixes of each other, the longer one earlier in the table: a handler has to match whole names
+const FILE_NAMES: [&str; 4] = ["main.rssl", "af.rssl", "f.rssl", "f.rssl.inc"];
 const MISSING: &str = "nofile.rssl";
 
 #[derive(Clone, Copy, Debug, PartialEq, Eq, Hash)]
@@ -2002,14 +2045,14 @@ pub fn run(ctx: &Ctx) -> i32 {
     // ---- A: ordered triples × forms × style (+ D2 define placement of every movable object-like definition)
     {
         // quick: style alternates with the index (every program once); thorough: both styles
-        let styles = ctx.pick(1u64, 2u64);
+        let styles = ctx.pick(1u64, 3u64);
         let radices = [nf, nd, nd, nd, styles];
         let quick = ctx.quick();
         run_space(ctx, &mut rep, "A_triples_x_forms", product(&radices), 256, |idx, acc| {
             let mut d = Vec::new();
             decode(idx, &radices, &mut d);
             if quick {
-                d[4] = (d[0] + d[1] + d[2] + d[3]) % 2;
+                d[4] = (d[0] + d[1] + d[2] + d[3]) % 3;
             }
             let (lines, style) = prog_a(&al, &d);
             if idx % 300_007 == 11 {
@@ -2046,7 +2089,7 @@ pub fn run(ctx: &Ctx) -> i32 {
                 Line::Define(rest[d[1] as usize].clone()),
                 use_line(al.forms[d[0] as usize]),
             ];
-            let style = ((d[0] + d[1] + d[2] + d[3] + d[4]) % 2) as u8;
+            let style = ((d[0] + d[1] + d[2] + d[3] + d[4]) % 3) as u8;
             if idx % 3_000_017 == 19 {
                 acc.sample(obj(vec![("space", "A4-quadruples".into()), ("program", render(&lines, style).into())]));
             }
@@ -2064,14 +2107,14 @@ pub fn run(ctx: &Ctx) -> i32 {
             decode(idx, &radices, &mut d);
             d[3] = backgrounds[d[3] as usize];
             let lines = prog_b(&al, &d);
-            let style = (idx % 2) as u8;
+            let style = (idx % 3) as u8;
             if idx % 200_003 == 5 {
                 acc.sample(obj(vec![("space", "B-redefinition".into()), ("program", render(&lines, style).into())]));
             }
             case_macro_prog(idx, "redef", lines, style, false, false)
         });
         if ctx.quick() {
-            rep.caps_hit.push("quick tier: space A renders every program in one of the two whitespace styles (thorough: both); space B uses 6 of the 40 background choices (none, `A := 1`, `C :=`, `F(x) := x`, `G(x,y) := x ## y`, `xy(v) := { v }`); space C uses 3 files (thorough: 4)".into());
+            rep.caps_hit.push("quick tier: space A renders every program in one of the three separator styles (spaces, tight, block comments; thorough: all three); space B uses 6 of the 40 background choices (none, `A := 1`, `C :=`, `F(x) := x`, `G(x,y) := x ## y`, `xy(v) := { v }`); space C uses 3 files (thorough: 4)".into());
         }
     }
 
